@@ -63,6 +63,8 @@ def build(spec, schema=None):
         return query.NumericRange(spec[1], spec[2], spec[3], spec[4], spec[5])
     if k == "fuzzy":
         return query.FuzzyTerm(spec[1], spec[2], maxdist=spec[3], prefixlength=spec[4])
+    if k == "daterange":
+        return query.DateRange(spec[1], spec[2], spec[3], spec[4], spec[5])
     if k == "every":
         return query.Every()
     if k == "everyfield":
@@ -70,6 +72,10 @@ def build(spec, schema=None):
     if k == "null":
         return query.NullQuery
     raise ValueError("unknown query spec %r" % (spec,))
+
+
+class Ambiguous(Exception):
+    """The documentation does not settle what this query matches on this corpus."""
 
 
 # -- reference evaluator -----------------------------------------------------
@@ -210,10 +216,14 @@ def evaluate(spec, docs, schema):
                 t = tb.decode("utf-8")
                 if t[:plen] != word[:plen]:
                     return False
-                return damerau_levenshtein(word, t, maxdist) <= maxdist
+                a = damerau_levenshtein(word, t, maxdist) <= maxdist
+                if a != (levenshtein(word, t) <= maxdist):
+                    # the documented readings of the distance disagree on this term (C19's business)
+                    raise Ambiguous("%r vs %r at distance %d" % (word, t, maxdist))
+                return a
         return set(d.uid for d in docs
                    if any(test(tb) for tb in d.postings.get(f, {})))
-    if k == "numrange":
+    if k in ("numrange", "daterange"):
         f, lo, hi, lox, hix = spec[1:6]
         out = set()
         for d in docs:
@@ -251,7 +261,9 @@ def _leaf(rng, cfg, kinds=None):
             choices += ["numrange", "numterm"]
         if "b" in fields:
             choices += ["boolterm"]
-        choices += ["everyfield", "regex"]
+        if "dt" in fields:
+            choices += ["daterange", "daterange"]
+        choices += ["everyfield", "regex", "fuzzy"]
     c = rng.choice(choices)
     if c == "term":
         return ["term", rng.choice(tfields), rng.choice(vocab)]
@@ -287,6 +299,28 @@ def _leaf(rng, cfg, kinds=None):
         if rng.random() < 0.2:
             b = None
         return ["numrange", "n", a, b, rng.random() < 0.5, rng.random() < 0.5]
+    if c == "fuzzy":
+        w = rng.choice(vocab)
+        i = rng.randrange(len(w))
+        how = rng.randrange(3)
+        if how == 0:
+            w2 = w[:i] + rng.choice("abcdefghijklmnopqrstuvwxyz") + w[i + 1:]
+        elif how == 1 and len(w) > 2:
+            w2 = w[:i] + w[i + 1:]
+        else:
+            w2 = w[:i] + rng.choice("aeioux") + w[i:]
+        return ["fuzzy", rng.choice(tfields), w2, rng.choice((1, 1, 2)), rng.choice((0, 0, 1))]
+    if c == "daterange":
+        import datetime
+
+        def dtv():
+            return datetime.datetime(rng.randint(1990, 2030), rng.randint(1, 12), rng.randint(1, 28), rng.randint(0, 23))
+        a, b = sorted((dtv(), dtv()))
+        if rng.random() < 0.15:
+            a = None
+        if rng.random() < 0.15:
+            b = None
+        return ["daterange", "dt", a, b, rng.random() < 0.5, rng.random() < 0.5]
     if c == "every":
         return ["every"]
     if c == "everyfield":
@@ -398,5 +432,5 @@ def contains(spec, kinds):
 
 _ALL_KINDS = set(["term", "and", "or", "dismax", "not", "andnot", "andmaybe",
                   "require", "boost", "const", "phrase", "prefix", "wildcard",
-                  "regex", "termrange", "numrange", "fuzzy", "every",
+                  "regex", "termrange", "numrange", "daterange", "fuzzy", "every",
                   "everyfield", "null"])
